@@ -2268,3 +2268,234 @@ func init() {
 	registry["C03"].Meta.Rules["C03.17"] = registry["C04"].Meta.Rules["C04.6"] + " (shared with C04.6: the structure whose tail is lost is the root group's name heap)"
 	registry["C03"].Rules = append(registry["C03"].Rules, func(c *Ctx, r *Result) { c.reservedSpanCovers(r, "C03.17") })
 }
+
+// ---- the loop that fills a buffer of n entries runs n times (C03.18 / C11.13) ----
+//
+// A serializer makes a buffer of S bytes and walks a cursor through it. Where a counted loop (i from i0, +1, while i < B) advances
+// the cursor by the same amount D on every path of an iteration and D is not a constant (an entry size computed from the
+// file's offset size), the bytes the loop covers are (B - i0) * D. What is left of S after the cursor's start value and the
+// loop, S - start - (B - i0) * D, is then free of D's symbols: a leftover that still contains an entry size means the loop
+// was sized for a different number of entries than the buffer (i < maxEntries-1 leaves the last entry of a full
+// symbol-table node unwritten although the node's count says it is there).
+func serializerLoopRule(c *Ctx, r *Result, rule string, scope func(string) bool, floor int) {
+	n := 0
+	for _, fn := range c.LibFuncs() {
+		if fn.Blocks == nil || (scope != nil && !scope(c.Name(fn))) {
+			continue
+		}
+		// byte buffers made in fn with their length
+		var bufs []*ssa.MakeSlice
+		instrs(fn, func(in ssa.Instruction) {
+			if mk, ok := in.(*ssa.MakeSlice); ok {
+				if sl, isSl := mk.Type().Underlying().(*types.Slice); isSl {
+					if b, isB := sl.Elem().Underlying().(*types.Basic); isB && b.Kind() == types.Uint8 {
+						bufs = append(bufs, mk)
+					}
+				}
+			}
+		})
+		if len(bufs) == 0 {
+			continue
+		}
+		e := &polyEnv{c: c, fn: fn, phiNm: map[*ssa.Phi]string{}}
+		var eval func(v ssa.Value, d int) (Poly, bool)
+		eval = func(v ssa.Value, d int) (Poly, bool) {
+			if d > 20 {
+				return nil, false
+			}
+			switch x := v.(type) {
+			case *ssa.Phi:
+				if nm, ok := e.phiNm[x]; ok {
+					return polyAtom(nm), true
+				}
+				var first Poly
+				for i, ed := range x.Edges {
+					p, ok := eval(ed, d+1)
+					if !ok {
+						return nil, false
+					}
+					if i == 0 {
+						first = p
+					} else if !first.equal(p) {
+						return nil, false
+					}
+				}
+				return first, first != nil
+			case *ssa.BinOp:
+				a, ok1 := eval(x.X, d+1)
+				b, ok2 := eval(x.Y, d+1)
+				if !ok1 || !ok2 {
+					return nil, false
+				}
+				switch x.Op {
+				case token.ADD:
+					return a.add(b, 1), true
+				case token.SUB:
+					return a.add(b, -1), true
+				case token.MUL:
+					return a.mul(b), true
+				}
+				return nil, false
+			case *ssa.Convert:
+				return eval(x.X, d+1)
+			case *ssa.ChangeType:
+				return eval(x.X, d+1)
+			}
+			p := e.of(v, 0)
+			for m := range p {
+				if strings.Contains(m, "?") {
+					return nil, false
+				}
+			}
+			return p, true
+		}
+		k := 0
+		for _, h := range fn.Blocks {
+			ifi, ok := h.Instrs[len(h.Instrs)-1].(*ssa.If)
+			if !ok {
+				continue
+			}
+			cmp, ok := ifi.Cond.(*ssa.BinOp)
+			if !ok || cmp.Op != token.LSS {
+				continue
+			}
+			ctr, ok := cmp.X.(*ssa.Phi)
+			if !ok || ctr.Block() != h {
+				continue
+			}
+			loop := naturalLoop(h)
+			if len(loop) < 2 {
+				continue
+			}
+			// counter: init from outside, +1 on every back edge
+			var i0 ssa.Value
+			okCtr := true
+			for i, p := range h.Preds {
+				if h.Dominates(p) {
+					bo, isB := ctr.Edges[i].(*ssa.BinOp)
+					one, isK := int64(0), false
+					if isB {
+						one, isK = constInt(bo.Y)
+					}
+					if !isB || bo.Op != token.ADD || bo.X != ssa.Value(ctr) || !isK || one != 1 {
+						okCtr = false
+					}
+				} else {
+					i0 = ctr.Edges[i]
+				}
+			}
+			if !okCtr || i0 == nil {
+				continue
+			}
+			// cursors: other header phis used as a slice low bound / index on one of the buffers inside the loop
+			for _, in := range h.Instrs {
+				cur, isPhi := in.(*ssa.Phi)
+				if !isPhi || cur == ctr || !isIntType(cur.Type()) {
+					continue
+				}
+				var buf *ssa.MakeSlice
+				for b := range loop {
+					for _, x := range b.Instrs {
+						switch y := x.(type) {
+						case *ssa.Slice:
+							if mk, isMk := stripSlices(y.X).(*ssa.MakeSlice); isMk && y.Low != nil && dependsOnValue(y.Low, cur, 0) {
+								buf = mk
+							}
+						case *ssa.IndexAddr:
+							if mk, isMk := stripSlices(y.X).(*ssa.MakeSlice); isMk && dependsOnValue(y.Index, cur, 0) {
+								buf = mk
+							}
+						}
+					}
+				}
+				if buf == nil {
+					continue
+				}
+				isOurs := false
+				for _, b := range bufs {
+					if b == buf {
+						isOurs = true
+					}
+				}
+				if !isOurs {
+					continue
+				}
+				// delta per iteration, the same on every path
+				e.phiNm[cur] = "@cur"
+				e.phiNm[ctr] = "@i"
+				var start ssa.Value
+				var delta Poly
+				okDelta := true
+				for i, p := range h.Preds {
+					if !h.Dominates(p) {
+						start = cur.Edges[i]
+						continue
+					}
+					v, ok := eval(cur.Edges[i], 0)
+					if !ok {
+						okDelta = false
+						break
+					}
+					dlt := v.add(polyAtom("@cur"), -1)
+					for m := range dlt {
+						if strings.Contains(m, "@") {
+							okDelta = false
+						}
+					}
+					if delta == nil {
+						delta = dlt
+					} else if !delta.equal(dlt) {
+						okDelta = false
+					}
+				}
+				delete(e.phiNm, cur)
+				delete(e.phiNm, ctr)
+				if !okDelta || delta == nil || start == nil {
+					continue
+				}
+				// a constant step says nothing about the entry count
+				nonConst := false
+				atoms := map[string]bool{}
+				for m := range delta {
+					if m != "" {
+						nonConst = true
+						for _, a := range strings.Split(m, "*") {
+							atoms[a] = true
+						}
+					}
+				}
+				if !nonConst {
+					continue
+				}
+				S, ok1 := eval(buf.Len, 0)
+				st, ok2 := eval(start, 0)
+				B, ok3 := eval(cmp.Y, 0)
+				I0, ok4 := eval(i0, 0)
+				if !ok1 || !ok2 || !ok3 || !ok4 {
+					continue
+				}
+				n++
+				k++
+				rest := S.add(st, -1).add(B.add(I0, -1).mul(delta), -1)
+				bad := ""
+				for m := range rest {
+					for _, a := range strings.Split(m, "*") {
+						if atoms[a] {
+							bad = m
+						}
+					}
+				}
+				r.Check(bad == "", rule, fmt.Sprintf("%s#loop-covers-the-entries-the-buffer-was-sized-for-%d", c.Name(fn), k), c.InstrPos(cmp), "buffer of "+S.String()+" bytes, cursor from "+st.String()+", "+B.add(I0, -1).String()+" iterations of "+delta.String()+" bytes: left over "+rest.String()+map[bool]string{true: "", false: " (still contains an entry size: the loop runs a different number of times than the buffer has entries)"}[bad == ""])
+			}
+		}
+	}
+	if n < floor {
+		r.Shortfall(c, rule, fmt.Sprintf("%s: only %d serializer loops with a computed entry size found (expected >= %d)", rule, n, floor))
+	}
+}
+
+func init() {
+	txt := "the loop that fills a buffer of n entries runs n times: where a counted loop advances a cursor through a buffer made in the same function by the same non-constant amount D on every path of an iteration, what is left of the buffer's length after the cursor's start and (bound - first) * D contains no entry size (with i < maxEntries-1 the last entry of a full symbol-table node is never written while the node's count says it is there, and the file no longer opens)"
+	registry["C03"].Meta.Rules["C03.18"] = txt
+	registry["C03"].Rules = append(registry["C03"].Rules, func(c *Ctx, r *Result) { serializerLoopRule(c, r, "C03.18", nil, 1) })
+}
